@@ -2,6 +2,7 @@ package policy
 
 import (
 	"fmt"
+	"strings"
 
 	"github.com/ipld/go-ipld-prime"
 	"github.com/ipld/go-ipld-prime/codec/dagjson"
@@ -18,7 +19,7 @@ func FromIPLD(node datamodel.Node) (Policy, error) {
 		return nil, fmt.Errorf("policy contains integer values outside safe bounds: %w", err)
 	}
 
-	return statementsFromIPLD("/", node)
+	return statementsFromIPLD(&ipldPath{}, node)
 }
 
 func FromDagJson(json string) (Policy, error) {
@@ -29,30 +30,30 @@ func FromDagJson(json string) (Policy, error) {
 	return FromIPLD(nodes)
 }
 
-func statementFromIPLD(path string, node datamodel.Node) (Statement, error) {
+func statementFromIPLD(path *ipldPath, node datamodel.Node) (Statement, error) {
 	// sanity checks
 	if node.Kind() != datamodel.Kind_List {
-		return nil, ErrNotATuple(path)
+		return nil, ErrNotATuple(path.String())
 	}
 	if node.Length() != 2 && node.Length() != 3 {
-		return nil, ErrUnrecognizedShape(path)
+		return nil, ErrUnrecognizedShape(path.String())
 	}
 
 	// extract operator
 	opNode, _ := node.LookupByIndex(0)
 	if opNode.Kind() != datamodel.Kind_String {
-		return nil, ErrNotAString(path)
+		return nil, ErrNotAString(path.String())
 	}
 	op := must.String(opNode)
 
 	arg2AsSelector := func(op string) (selector.Selector, error) {
 		nd, _ := node.LookupByIndex(1)
 		if nd.Kind() != datamodel.Kind_String {
-			return nil, ErrNotAString(combinePath(path, op, 1))
+			return nil, ErrNotAString(combinePath(path, op, 1).String())
 		}
 		sel, err := selector.Parse(must.String(nd))
 		if err != nil {
-			return nil, ErrInvalidSelector(combinePath(path, op, 1), err)
+			return nil, ErrInvalidSelector(combinePath(path, op, 1).String(), err)
 		}
 		return sel, nil
 	}
@@ -77,7 +78,7 @@ func statementFromIPLD(path string, node datamodel.Node) (Statement, error) {
 			return connective{kind: op, statements: statement}, nil
 
 		default:
-			return nil, ErrUnrecognizedOperator(path, op)
+			return nil, ErrUnrecognizedOperator(path.String(), op)
 		}
 	case 3:
 		switch op {
@@ -96,11 +97,11 @@ func statementFromIPLD(path string, node datamodel.Node) (Statement, error) {
 			}
 			pattern, _ := node.LookupByIndex(2)
 			if pattern.Kind() != datamodel.Kind_String {
-				return nil, ErrNotAString(combinePath(path, op, 2))
+				return nil, ErrNotAString(combinePath(path, op, 2).String())
 			}
 			g, err := parseGlob(must.String(pattern))
 			if err != nil {
-				return nil, ErrInvalidPattern(combinePath(path, op, 2), err)
+				return nil, ErrInvalidPattern(combinePath(path, op, 2).String(), err)
 			}
 			return wildcard{selector: sel, pattern: g}, nil
 
@@ -117,18 +118,18 @@ func statementFromIPLD(path string, node datamodel.Node) (Statement, error) {
 			return quantifier{kind: op, selector: sel, statement: statement}, nil
 
 		default:
-			return nil, ErrUnrecognizedOperator(path, op)
+			return nil, ErrUnrecognizedOperator(path.String(), op)
 		}
 
 	default:
-		return nil, ErrUnrecognizedShape(path)
+		return nil, ErrUnrecognizedShape(path.String())
 	}
 }
 
-func statementsFromIPLD(path string, node datamodel.Node) ([]Statement, error) {
+func statementsFromIPLD(path *ipldPath, node datamodel.Node) ([]Statement, error) {
 	// sanity checks
 	if node.Kind() != datamodel.Kind_List {
-		return nil, ErrNotATuple(path)
+		return nil, ErrNotATuple(path.String())
 	}
 	if node.Length() == 0 {
 		return nil, nil
@@ -138,7 +139,7 @@ func statementsFromIPLD(path string, node datamodel.Node) ([]Statement, error) {
 
 	for i := int64(0); i < node.Length(); i++ {
 		nd, _ := node.LookupByIndex(i)
-		statement, err := statementFromIPLD(fmt.Sprintf("%s%d/", path, i), nd)
+		statement, err := statementFromIPLD(&ipldPath{parent: path, index: i}, nd)
 		if err != nil {
 			return nil, err
 		}
@@ -269,6 +270,34 @@ func statementToIPLD(statement Statement) (datamodel.Node, error) {
 	return list.Build(), nil
 }
 
-func combinePath(prev string, operator string, index int) string {
-	return fmt.Sprintf("%s%d-%s/", prev, index, operator)
+// ipldPath describes the position of a statement in the policy being decoded.
+// It is only rendered when an error is reported: rendering it at every level
+// of the recursion made the memory needed to decode a policy quadratic in its
+// nesting depth.
+type ipldPath struct {
+	parent   *ipldPath // nil for the root "/"
+	index    int64
+	operator string
+}
+
+func (p *ipldPath) String() string {
+	var segments []string
+	for ; p.parent != nil; p = p.parent {
+		if p.operator != "" {
+			segments = append(segments, fmt.Sprintf("%d-%s/", p.index, p.operator))
+		} else {
+			segments = append(segments, fmt.Sprintf("%d/", p.index))
+		}
+	}
+
+	var res strings.Builder
+	res.WriteString("/")
+	for i := len(segments) - 1; i >= 0; i-- {
+		res.WriteString(segments[i])
+	}
+	return res.String()
+}
+
+func combinePath(prev *ipldPath, operator string, index int) *ipldPath {
+	return &ipldPath{parent: prev, index: int64(index), operator: operator}
 }
